@@ -31,6 +31,12 @@ type c08Case struct {
 	// FailFirst > 0: before the two verified renders, the message is rendered into a sink that
 	// fails after that many bytes (a failed render must not disturb the next signature).
 	FailFirst int `json:"fail_first,omitempty"`
+	// Issuer: curve of the CA that issued the signer certificate (p256/p384/p521), i.e. the hash used
+	// for the signature on that certificate.
+	Issuer string `json:"issuer,omitempty"`
+	// AddAltBetween: after the first verified render an alternative part is added, then the message is
+	// rendered again (the signature must follow the message).
+	AddAltBetween bool `json:"add_alt_between,omitempty"`
 }
 
 var (
@@ -39,13 +45,20 @@ var (
 )
 
 func signingChain(key string, inter bool) *tlsutil.SigningChain {
+	return signingChainIssuer(key, inter, "p256")
+}
+
+func signingChainIssuer(key string, inter bool, issuer string) *tlsutil.SigningChain {
+	if issuer == "" {
+		issuer = "p256"
+	}
 	chainMu.Lock()
 	defer chainMu.Unlock()
-	k := fmt.Sprintf("%s/%v", key, inter)
+	k := fmt.Sprintf("%s/%v/%s", key, inter, issuer)
 	if c, ok := chains[k]; ok {
 		return c
 	}
-	c, err := tlsutil.NewSigningChain(key, inter)
+	c, err := tlsutil.NewSigningChainIssuer(key, inter, issuer)
 	if err != nil {
 		panic("HARNESS-ERROR: signing chain: " + err.Error())
 	}
@@ -74,7 +87,7 @@ func c08Run(c c08Case) []*core.Violation {
 	if c.MultiLinePre {
 		m.SetGenHeaderPreformatted("X-Multi-Line", "first line\r\n second line\r\n\tthird line")
 	}
-	chain := signingChain(c.Key, c.Intermediate)
+	chain := signingChainIssuer(c.Key, c.Intermediate, c.Issuer)
 	if c.Via == "tlscert" {
 		tc := &tls.Certificate{Certificate: [][]byte{chain.Leaf.Raw}, PrivateKey: chain.Key, Leaf: chain.Leaf}
 		if chain.Intermediate != nil {
@@ -154,12 +167,19 @@ func c08Run(c c08Case) []*core.Violation {
 		vs = append(vs, oracle.CompareLeaves(inner, b.Leaves, np, ne, na, oracle.LeafOpts{})...)
 		if render == 1 {
 			firstEntity = append([]byte{}, entity.Raw...)
-		} else if !bytes.Equal(firstEntity, entity.Raw) {
+			if c.AddAltBetween {
+				// the caller goes on building the message after a first render
+				extra := []byte("<p>alternative added after the first render</p>\r\n")
+				m.AddAlternativeString("text/html", string(extra))
+				b.Leaves = append(b.Leaves[:np:np], append([]gen.Leaf{{Kind: "part", MediaType: "text/html", Charset: "UTF-8", CTE: spec.Encoding, Content: extra}}, b.Leaves[np:]...)...)
+				np++
+			}
+		} else if !c.AddAltBetween && !bytes.Equal(firstEntity, entity.Raw) {
 			vs = append(vs, core.V("signed-entity-changed", "the signed entity differs between the first and the second render"))
 		}
 		rec.AddExtra("signatures_verified", 1)
 	}
-	feat := fmt.Sprintf("%v/%s/%v/%v", c.EmptyHeader, c.EmptyIgnore, c.MultiLinePre, c.FailFirst > 0)
+	feat := fmt.Sprintf("%v/%s/%v/%v/%s/%v", c.EmptyHeader, c.EmptyIgnore, c.MultiLinePre, c.FailFirst > 0, c.Issuer, c.AddAltBetween)
 	rec.NonTrivial(core.Join(spec.ShapeKey(), c.Key, c.Intermediate, c.Via, feat))
 	rec.Sample(fmt.Sprintf("%s/%d", c.Key, np+ne+na), map[string]interface{}{"shape": spec.ShapeKey(), "key": c.Key, "intermediate": c.Intermediate, "via": c.Via, "features": feat})
 	rec.Class("key:" + c.Key)
@@ -201,6 +221,10 @@ func c08Gen(t *rapid.T) c08Case {
 		c.Spec.Cc = []string{"cc@verif.example"}
 	}
 	c.MultiLinePre = rapid.IntRange(0, 3).Draw(t, "multilinepre") == 0
+	c.Issuer = rapid.SampledFrom([]string{"p256", "p256", "p384", "p521"}).Draw(t, "issuer")
+	if len(c.Spec.Parts) >= 1 && c.Spec.Charset == "" && rapid.IntRange(0, 3).Draw(t, "addalt") == 0 {
+		c.AddAltBetween = true
+	}
 	if rapid.IntRange(0, 3).Draw(t, "failfirst") == 0 {
 		c.FailFirst = rapid.SampledFrom([]int{1, 50, 100, 300, 500, 900, 1500, 2500}).Draw(t, "failoffset")
 	}
@@ -209,7 +233,7 @@ func c08Gen(t *rapid.T) c08Case {
 
 func TestC08(t *testing.T) {
 	rec := core.Rec("C08")
-	rec.Rule = "rapid draws message programs (0..3 parts, 0..2 embeds, 0..2 attachments in every combination incl. body-less and file-only messages; QP/base64/8bit per message, part and file; part and file descriptions incl. long ones; long file names; generic headers incl. long and non-ASCII values, a generic header without values, preformatted and multi-line preformatted headers, To/Cc *IgnoreInvalid lists that end up empty; contents in canonical CRLF form; chunked producers), signs them with an ECDSA P-256 or RSA-2048 key, with or without an intermediate certificate, through SignWithKeypair or SignWithTLSCertificate, and renders each message twice (one case in four after a first render into a sink that fails at a drawn offset). " +
+	rec.Rule = "rapid draws message programs (0..3 parts, 0..2 embeds, 0..2 attachments in every combination incl. body-less and file-only messages; QP/base64/8bit per message, part and file; part and file descriptions incl. long ones; long file names; generic headers incl. long and non-ASCII values, a generic header without values, preformatted and multi-line preformatted headers, To/Cc *IgnoreInvalid lists that end up empty; contents in canonical CRLF form; chunked producers), signs them with an ECDSA P-256 or RSA-2048 key whose certificate was issued by a P-256, P-384 or P-521 CA (SHA-256/384/512 on the certificate), with or without an intermediate certificate, through SignWithKeypair or SignWithTLSCertificate, and renders each message twice (one case in four after a first render into a sink that fails at a drawn offset; one in four with an alternative part added between the two renders). " +
 		"Oracle (own MIME reader + own CMS SignedData verifier on encoding/asn1 and crypto/*): top level multipart/signed with protocol=application/pkcs7-signature and micalg=sha-256 and exactly two parts; SHA-256 of the first part exactly as emitted between the delimiters == the message-digest attribute; signed attributes in DER SET order with content-type id-data; signature valid under the carried signer certificate, which is the one given; intermediate carried iff given; the signed entity's leaves match the model; the second render verifies too and carries the same signed entity. " +
 		"Non-trivial: every case (each exercises the double render). Distinct by (shape key, key type, intermediate, API, header features)."
 	rec.Assumptions = []string{"contents are generated in canonical CRLF form (the property's domain)", "certificate chain validation up to a trust anchor is not part of the property"}
